@@ -165,12 +165,17 @@ def words_pool(rng, enc, paren_ok):
             pool += gen.WORDS_BEYOND_LATIN1
     elif r < 0.9 and paren_ok:
         pool += ['(', ')', '[', ']', 'a(b)c', '-LRB-', '{']
+    if rng.random() < 0.25:
+        pool += gen.WORDS_TABSTOP
     return pool
 
 
 def make_bank(rng, cont, enc, paren_ok, export_src):
     pools = gen.Pools(words=words_pool(rng, enc, paren_ok),
                       pos=gen.POS + ['$.', '$,'],
+                      morphs=gen.MORPHS + (['Nom.Sg.Masc.Pos.St', 'abcdefgh',
+                                            '3.Sg.Pres.Ind.Akt.x.y.z']
+                                           if rng.random() < 0.3 else []),
                       lemma=rng.random() < 0.5)
     k = rng.randint(1, 5)
     bank = []
